@@ -154,7 +154,7 @@ def gen_cases(run, thorough):
             n = heavy_n(q) if q >= 10 else rng.choice([0, 3, 1000, 30000, 80000])
             add("single-parameter", base + s, kind, n, sd(), rng.choice(["one", "chunks", "tiny-out", "flush"]))
     # C. random combinations of everything
-    for _ in range(700 * mult):
+    for _ in range(1000 * mult):
         q = rng.choice([0, 1, 2, 3, 4, 5, 6, 7, 8, 9, 9, 10, 11, 11, -1, 12])
         if q >= 10 and rng.random() < 0.5:
             q = rng.choice([2, 5, 9])
@@ -204,7 +204,9 @@ def gen_cases(run, thorough):
     # G. incompressible data around block boundaries (uncompressed fallback)
     for q in (0, 1, 2, 4, 5, 9):
         for lb_target in (14, 16, 18):
-            p = [(1, q), (2, rng.choice([16, 18, 22]))] + ([(3, lb_target)] if lb_target >= 16 else [])
+            # quality 0/1: the block is the window (lgblock = lgwin)
+            p = ([(1, q), (2, max(16, lb_target))] if q <= 1 else
+                 [(1, q), (2, rng.choice([16, 18, 22]))] + ([(3, lb_target)] if lb_target >= 16 else []))
             qs, ws, lb = sanitized(p)
             for d in (-1, 0, 1):
                 add("incompressible-block-boundary", p, "rand", (1 << lb) + d, sd(), rng.choice(["one", "chunks"]))
